@@ -515,6 +515,7 @@ class Interp:
         self._const_cache = {}
         self.call_depth = 0
         self.trace_calls = False
+        self.fn_names = []
         self.frames = []        # per activation: {closure span: [created closure values not yet consumed]}
 
     # -- solver --------------------------------------------------------------------------------
@@ -941,7 +942,7 @@ class Interp:
             ops = [self.operand(L, o) for o in rv[2]]
             return self.make_adt(rv[1], ops, rv[3], dest_ty)
         if k == 'closure':
-            return Closure(rv[1], [self.operand(L, o) for o in rv[2]])
+            return Closure(rv[1], [self.operand(L, o) for o in rv[2]], self.fn_names[-1] if self.fn_names else None)
         if k == 'cast':
             v = self.operand(L, rv[1])
             kind = rv[3]
@@ -986,6 +987,17 @@ class Interp:
         prog = self.prog
         lb = prog.blocks(f)
         L = [None] * f.nlocals
+        # capture-less closures are zero-sized: MIR need not assign their locals before use; their identity is their type
+        zc = getattr(f, '_zst_closures', None)
+        if zc is None:
+            zc = []
+            for n, ty in f.locals.items():
+                if isinstance(ty, str) and ty.startswith('{closure@') and ty.endswith('}') and ty.count('{') == 1:
+                    zc.append((n, 'closure@' + ty[9:-1]))
+            f._zst_closures = zc
+        for n, span in zc:
+            if n < len(L):
+                L[n] = Closure(span, [], f.name)
         for (n, _), a in zip(f.args, args):
             L[n] = a
         if len(args) != len(f.args):
@@ -993,6 +1005,7 @@ class Interp:
         ltypes = f.locals
         bb = 0
         self.frames.append({})
+        self.fn_names.append(f.name)
         self.call_depth += 1
         if self.call_depth > 3000:
             raise RustPanic('unbounded recursion: MIR call depth > 3000 (stack exhaustion) in %s' % f.name)
@@ -1089,6 +1102,7 @@ class Interp:
         finally:
             self.call_depth -= 1
             self.frames.pop()
+            self.fn_names.pop()
 
     def call_value(self, fv, args):
         """call a closure / fn item value"""
@@ -1101,6 +1115,12 @@ class Interp:
                 # span text in the aggregate is 'file:l:c: l:c'
                 raise Inconclusive('closure body not found: %s' % fv.span)
             e = es[0]
+            if len(es) > 1:
+                # several closures with one source span: expansions of the same macro in different functions
+                owner = getattr(fv, 'owner', None)
+                mine = [x for x in es if owner and x.name.startswith(owner + '::{closure')]
+                if len(mine) == 1:
+                    e = mine[0]
             f = self.prog.func(e)
             first = f.args[0][1]
             if first.startswith('&'):
@@ -1176,4 +1196,9 @@ class Explorer:
                 work.append(p)
             if r.outcome != 'infeasible':
                 self.results.append(r)
+                sw = getattr(self, 'stop_when', None)
+                if sw is not None and sw(r):
+                    # a counterexample was found: the remaining paths cannot change the verdict
+                    self.stopped_early = True
+                    break
         return self.results
